@@ -330,6 +330,95 @@ def type_flavour_block():
     return out
 
 
+# ------------------------------------------------------------------ call-sequence perturbations
+def _list_flavour(v):
+    if all(isinstance(x, int) for x in v):
+        return "list-int"
+    return "list-float" if all(isinstance(x, float) for x in v) else "list-mixed"
+
+
+def twins(b):
+    """binnings whose argument is EQUAL AS A SEQUENCE to `b`'s but of another kind (tuple spec (min,max,n) <-> list of
+    edges [min,max,n]), element type (int <-> float entries comparing equal) or container (list of numpy scalars,
+    numpy array).  Each twin is a binning of its own with its own expected edges; none may be answered with the
+    result of another."""
+    out = []
+    if b["kind"] == "tuple":
+        lo, hi, n = b["v"]
+        if lo < hi < n:
+            out.append(dict(kind="list", v=[lo, hi, int(n)], flavour=_list_flavour([lo, hi, int(n)])))
+            out.append(dict(kind="list", v=[float(lo), float(hi), float(n)], flavour="list-float"))
+        alt = [float(lo) if isinstance(lo, int) else (int(lo) if lo == int(lo) else lo),
+               float(hi) if isinstance(hi, int) else (int(hi) if hi == int(hi) else hi), int(n)]
+        if [type(x) for x in alt] != [type(x) for x in b["v"]]:
+            out.append(dict(kind="tuple", v=alt, flavour="tuple-mixed"))
+    elif b["kind"] == "list":
+        v = list(b["v"])
+        if len(v) == 3 and float(v[2]) == int(v[2]) and int(v[2]) >= 1 and v[0] < v[1]:
+            out.append(dict(kind="tuple", v=[v[0], v[1], int(v[2])], flavour="tuple-mixed"))
+        if any(isinstance(x, int) for x in v):
+            out.append(dict(kind="list", v=[float(x) for x in v], flavour="list-float"))
+        if all(float(x) == int(x) for x in v) and any(isinstance(x, float) for x in v):
+            out.append(dict(kind="list", v=[int(x) for x in v], flavour="list-int"))
+        fv = b.get("flavour", "")
+        if fv not in ("list-npfloat-items",):
+            out.append(dict(kind="list", v=[float(x) for x in v], flavour="list-npfloat-items"))
+        if not fv.startswith("ndarray"):
+            out.append(dict(kind="list", v=[float(x) for x in v], flavour="ndarray-float"))
+        else:
+            out.append(dict(kind="list", v=[float(x) for x in v], flavour="list-float"))
+    return out
+
+
+def gen_seq_pair(rng, meth):
+    """a tuple spec (a, b, n) and the explicit edge list [a, b, n] with the same numbers (a < b < n), entries int or float"""
+    positive = meth in ("dNdpT", "dNdmT")
+    a = rng.choice([0, 0, 1]) if positive else rng.choice([-2, -1, 0, 0])
+    b_ = a + rng.choice([1, 1, 2])
+    n = rng.randint(max(b_ + 1, 1), b_ + 3)
+    cast = rng.choice([int, float])
+    t = dict(kind="tuple", v=[cast(a), cast(b_), n], flavour="tuple-int" if cast is int else "tuple-float")
+    cast2 = rng.choice([int, float])
+    lst = [cast2(a), cast2(b_), rng.choice([n, float(n)]) if cast2 is float else n]
+    l = dict(kind="list", v=lst, flavour=_list_flavour(lst))
+    return [t, l] if rng.random() < 0.5 else [l, t]
+
+
+def gen_mutation(rng, edges):
+    """something a caller may do with the Histogram it was handed (public Histogram API)"""
+    r = rng.random()
+    if r < 0.35:
+        return f"scale:{rng.choice([2.0, 0.5, 3.0, 0.0])}"
+    if r < 0.6:
+        i = rng.randrange(len(edges) - 1)
+        return f"add_value:{(edges[i] + edges[i + 1]) / 2!r}"
+    if r < 0.75:
+        return "add_histogram"
+    if r < 0.9 and len(edges) > 2:
+        return f"remove_bin:{rng.randrange(len(edges) - 1)}"
+    return "set_error"
+
+
+def apply_mutation(h, mut):
+    """the caller changes ITS result object; whatever that raises is the caller's business"""
+    try:
+        with np.errstate(all="ignore"):
+            if mut.startswith("scale:"):
+                h.scale_histogram(float(mut.split(":")[1]))
+            elif mut.startswith("add_value:"):
+                for _ in range(3):
+                    h.add_value(float(mut.split(":")[1]))
+            elif mut == "add_histogram":
+                h.add_histogram()
+                h.add_value(float(h.bin_centers()[0]))
+            elif mut.startswith("remove_bin:"):
+                h.remove_bin(int(mut.split(":")[1]))
+            elif mut == "set_error":
+                h.set_error([7.0] * len(h.bin_centers()))
+    except Exception:  # noqa: BLE001
+        pass
+
+
 # ------------------------------------------------------------------ driver encoding
 def enc_q(x):
     return "-" if x != x else f2h(x)
@@ -395,19 +484,31 @@ def correspond(ctx):
         reuse = idx % 2 == 1
         bo = new_bo(pl) if reuse else None
         ctx.count(f"sample/{tag}/{'reused-object' if reuse else 'fresh-objects'}")
-        # --- differential yields (in a re-used object one method is called a second time at the end)
+        # --- differential yields.  On a re-used object: shuffled, one method a second time, and after a call
+        #     sometimes a twin binning (same numbers, other kind / element type / container) or the caller modifies
+        #     the Histogram it got and asks the same question again; plus one (tuple spec, edge list) pair
         dn_calls = list(DN_METHODS)
         if forced:
             dn_calls = [forced[0]]
         elif reuse:
             rng.shuffle(dn_calls)
             dn_calls.append(rng.choice(dn_calls))
-        for meth in dn_calls:
+        queue = [(m, None) for m in dn_calls]
+        if reuse and not forced:
+            m = rng.choice(list(DN_METHODS))
+            pos = rng.randrange(len(queue) + 1)
+            queue[pos:pos] = [(m, b) for b in gen_seq_pair(rng, m)]
+        qi = 0
+        while qi < len(queue):
+            meth, b = queue[qi]
+            qi += 1
+            follow_up = b is None and reuse and not forced
             q = quantity_values(pl, DN_METHODS[meth])
-            if forced and forced[2] is not None:
-                b = dict(kind="list", v=list(forced[2]), flavour=forced[1])
-            else:
-                b = gen_bins(rng, meth, q, forced[1] if forced else None)
+            if b is None:
+                if forced and forced[2] is not None:
+                    b = dict(kind="list", v=list(forced[2]), flavour=forced[1])
+                else:
+                    b = gen_bins(rng, meth, q, forced[1] if forced else None)
             edges = edges_of(meth, b)
             if not edges_contract(meth, b, edges):
                 brk(f"np.linspace contract violated for {b}", case=dict(bins=b))
@@ -420,10 +521,22 @@ def correspond(ctx):
             if real[0] == "ok":
                 hb = [float(x) for x in real[2].bin_boundaries()]
                 if hb != edges:
-                    brk(f"{meth}: histogram edges {hb} differ from the binning's edges {edges}",
-                        case=dict(events=evs, alias=alias, method=meth, bins=b))
+                    brk(f"{meth}({bins_arg(b)!r}) ({'re-used' if reuse else 'fresh'} object): histogram edges {hb} differ from "
+                        f"the binning's edges {edges}", case=dict(events=evs, alias=alias, method=meth, bins=b, reused_object=reuse))
             lines.append(f"dndx\t{fl(edges)}\t{enc_dn_events(q)}")
             meta.append(("dn", meth, b, evs, alias, q, edges, real[:2], reuse))
+            if follow_up and real[0] == "ok":
+                r = rng.random()
+                if r < 0.3:
+                    tw = twins(b)
+                    for t in rng.sample(tw, min(len(tw), rng.randint(1, 2))):
+                        queue.insert(qi, (meth, t))
+                    ctx.count("sample/reused-object/twin-binning-follows")
+                elif r < 0.6:
+                    mut = gen_mutation(rng, edges)
+                    apply_mutation(real[2], mut)  # the caller's own object now; `real[:2]` was taken before
+                    queue.insert(qi if rng.random() < 0.6 else len(queue), (meth, b))
+                    ctx.count(f"sample/reused-object/result-mutated-then-same-call/{mut.split(':')[0]}")
         if not forced:
             # --- mid-rapidity functions
             flavour = rng.choice(FLAVOURS)
@@ -560,9 +673,11 @@ def check_write(h, tmpdir):
     return None
 
 
-def oracle_dn(evs, meth, b, tmpdir=None, alias=None, shared=None):
+def oracle_dn(evs, meth, b, tmpdir=None, alias=None, shared=None, mutate=None, handed=None):
     """None or (key, what, detail): the property on the real code for one differential-yield call.
-    shared = (particle lists, BulkObservables object) to run the call on a long-lived object."""
+    shared = (particle lists, BulkObservables object) to run the call on a long-lived object.
+    mutate: after all checks the caller modifies the Histogram it was handed (see apply_mutation).
+    handed: list collecting (result object, its values, its edges) of un-modified results."""
     pl, bo = shared if shared else (make_particles(evs, alias), None)
     q = quantity_values(pl, DN_METHODS[meth])
     if any(v != v or abs(v) == float("inf") for e in q for v in e):
@@ -578,11 +693,14 @@ def oracle_dn(evs, meth, b, tmpdir=None, alias=None, shared=None):
         return None
     btxt = f"{b.get('flavour', b['kind'])} {bins_arg(b)!r}"
     if real[0] != "ok":
+        if real[1].startswith("shape"):
+            return (f"{meth}/histogram-shape", f"{meth}({btxt}).histogram() has {real[1]}, expected one row", dict(observed=real[:2]))
         return (f"{meth}/raises-{real[1]}", f"{meth}({btxt}) raises {real[1]} on {len(evs)} events", dict(observed=real[:2]))
     want = ref_dn(q, edges)
     got = real[1]
     if len(got) != len(want):
-        return (f"{meth}/number-of-bins", f"{len(got)} bins returned, {len(want)} expected", {})
+        return (f"{meth}/number-of-bins", f"{meth}({btxt}): {len(got)} bins returned, {len(want)} expected "
+                                          f"(edges returned {[float(x) for x in real[2].bin_boundaries()]}, asked for {edges})", {})
     for i, (g, wv) in enumerate(zip(got, want)):
         if not close(g, float(wv), rel=1e-9, abs_=1e-300):
             return (f"{meth}/bin-value", f"{meth}({btxt}) bin {i} [{edges[i]},{edges[i+1]}): code {g!r}, "
@@ -593,10 +711,17 @@ def oracle_dn(evs, meth, b, tmpdir=None, alias=None, shared=None):
     inrange = sum(1 for e in q for v in e if edges[0] <= v < edges[-1])
     if not close(total, float(inrange), rel=1e-9, abs_=1e-9):
         return (f"{meth}/normalisation", f"sum(bin*width)*N_events = {total!r}, particles in range = {inrange}", {})
+    hb = [float(x) for x in h.bin_boundaries()]
+    if hb != edges:
+        return (f"{meth}/bin-edges", f"{meth}({btxt}) returned a histogram with edges {hb}, the binning asked for has {edges}", {})
     if tmpdir is not None:
         r = check_write(h, tmpdir)
         if r:
             return (r[0], r[1], {})
+    if mutate:
+        apply_mutation(h, mutate)
+    elif handed is not None:
+        handed.append((h, list(got), hb, f"{meth}({btxt})"))
     return None
 
 
@@ -633,21 +758,68 @@ def oracle_mid(evs, meth, w, flavour, alias=None, shared=None):
     return None
 
 
-def run_call(evs, call, tmpdir=None, alias=None, shared=None):
+def run_call(evs, call, tmpdir=None, alias=None, shared=None, handed=None):
     if call["method"] in DN_METHODS:
-        return oracle_dn(evs, call["method"], call["bins"], tmpdir, alias, shared)
+        return oracle_dn(evs, call["method"], call["bins"], tmpdir, alias, shared, call.get("mutate"), handed)
     return oracle_mid(evs, call["method"], call["y_width"], call["quantity"], alias, shared)
 
 
+def check_handed(handed):
+    """results handed out earlier (and not touched by the caller) must still be what they were"""
+    for h, vals, edges, txt in handed:
+        arr = np.asarray(h.histogram())
+        now = [float(x) for x in arr[0]] if arr.ndim == 2 and arr.shape[0] == 1 else None
+        if now != vals or [float(x) for x in h.bin_boundaries()] != edges:
+            return ("earlier-result-changed", f"the histogram returned earlier by {txt} was changed by a later call, or by the "
+                                              f"caller modifying the result of a later call (results share state): "
+                                              f"was {vals}, is {now}", dict(was=vals, now=now))
+    return None
+
+
 def run_history(evs, history, alias=None, tmpdir=None):
-    """all calls of `history` in a row on ONE BulkObservables object; -> (index, result) of the first failing call"""
+    """all calls of `history` in a row on ONE BulkObservables object; -> (index, result) of the first failing call.
+    A call may carry "mutate": the caller then modifies the Histogram it got (after it was checked)."""
     pl = make_particles(evs, alias)
     shared = (pl, new_bo(pl))
+    handed = []
     for i, call in enumerate(history):
-        r = run_call(evs, call, tmpdir if call["method"] in DN_METHODS else None, alias, shared)
+        r = run_call(evs, call, tmpdir if call["method"] in DN_METHODS else None, alias, shared, handed)
+        r = r or check_handed(handed)
         if r:
             return i, r
     return None
+
+
+def build_history(rng, calls, pl):
+    """a call sequence for ONE long-lived object: every call twice and one four times, shuffled; after some
+    differential-yield calls a twin (same numbers, other kind / element type / container), or the caller
+    modifies the result it got and asks the same question again; plus one (tuple spec, edge list) pair
+    with the same three numbers"""
+    order = list(range(len(calls))) * 2 + [rng.randrange(len(calls))] * 2
+    rng.shuffle(order)
+    hist = []
+    tail = []
+    for k in order:
+        c = dict(calls[k])
+        hist.append(c)
+        if c["method"] not in DN_METHODS:
+            continue
+        r = rng.random()
+        if r < 0.3:
+            tw = twins(c["bins"])
+            for t in rng.sample(tw, min(len(tw), rng.randint(1, 2))):
+                hist.append(dict(method=c["method"], bins=t))
+        elif r < 0.6:
+            edges = edges_of(c["method"], c["bins"])
+            if edges_contract(c["method"], c["bins"], edges):
+                c["mutate"] = gen_mutation(rng, edges)
+                again = dict(method=c["method"], bins=c["bins"])
+                (hist if rng.random() < 0.6 else tail).append(again)
+    meth = rng.choice(list(DN_METHODS))
+    pair = [dict(method=meth, bins=b) for b in gen_seq_pair(rng, meth)]
+    pos = rng.randrange(len(hist) + 1)
+    hist[pos:pos] = pair
+    return hist + tail
 
 
 def shrink(evs, call, key, alias=None, fails=None):
@@ -727,7 +899,8 @@ def search(ctx, budget_s):
 
         def still(c, al=None):
             rr = run_history(c, hist, al)
-            return bool(rr) and rr[0] == len(hist) - 1 and rr[1][0] == r[0] and run_call(c, hist[-1], alias=al) is None
+            return bool(rr) and rr[0] == len(hist) - 1 and rr[1][0] == r[0] and \
+                (r[0] == "earlier-result-changed" or run_call(c, hist[-1], alias=al) is None)
 
         evs, alias = shrink(evs, None, None, alias, fails=still)
         rr = run_history(evs, hist, alias)
@@ -744,7 +917,7 @@ def search(ctx, budget_s):
                 rr = run_history(case["events"], case["history"], case.get("alias"), tmpdir)
                 if rr:
                     bad = case["history"][rr[0]]
-                    if run_call(case["events"], bad, alias=case.get("alias")):  # a fresh object fails as well
+                    if rr[1][0] != "earlier-result-changed" and run_call(case["events"], bad, alias=case.get("alias")):  # a fresh object fails as well
                         report(case["events"], case.get("alias"), bad, rr[1], do_shrink=False)
                     else:
                         report_reuse(case["events"], case.get("alias"), case["history"][:rr[0] + 1], rr[1])
@@ -789,22 +962,32 @@ def search(ctx, budget_s):
                 if r:
                     report(evs, alias, call, r)
             ctx.count(f"oracle-sample/{tag}")
-            # every second sample: the same calls in a row, shuffled and repeated, on ONE long-lived object
+            # every second sample: a perturbed call sequence (build_history) on ONE long-lived object
             if n % 2 == 1:
-                order = list(range(len(calls))) * 2          # every call twice ...
-                order += [rng.randrange(len(calls))] * 2      # ... and one of them four times
-                rng.shuffle(order)
+                full = build_history(rng, calls, pl)
                 pl2 = make_particles(evs, alias)
                 shared = (pl2, new_bo(pl2))
+                handed = []
                 history = []
-                for k in order:
-                    history.append(calls[k])
-                    r = run_call(evs, calls[k], tmpdir if calls[k]["method"] in DN_METHODS else None, alias, shared)
+                for call in full:
+                    history.append(call)
+                    r = run_call(evs, call, tmpdir if call["method"] in DN_METHODS else None, alias, shared, handed)
+                    r = r or check_handed(handed)
                     ctx.case(("oracle-reuse", json.dumps(history), json.dumps(evs)), len(evs) >= 2)
-                    if r and fresh_ok[k]:
+                    if call.get("mutate"):
+                        ctx.count(f"oracle-reuse/result-mutated/{call['mutate'].split(':')[0]}")
+                    if r and r[0] == "earlier-result-changed":
                         report_reuse(evs, alias, history, r)
                         break
+                    if r:
+                        plain = {k: v for k, v in call.items() if k != "mutate"}
+                        if run_call(evs, plain, alias=alias) is None:  # a fresh object answers this call correctly
+                            report_reuse(evs, alias, history, r)
+                        else:
+                            report(evs, alias, plain, r)
+                        break
                 ctx.count("oracle-sample/reused-object-history")
+                ctx.count("oracle-reuse/calls", len(history))
             n += 1
     finally:
         for f in os.listdir(tmpdir):
